@@ -27,9 +27,9 @@ def gen(rng, count, tier):
             r = rng.random()
             if r < 0.25:
                 j['expect'] = 'raise'
-                exc = rng.choice(['ValueError', 'CustomError', 'AttrError'])
+                exc = rng.choice(['ValueError', 'CustomError', 'AttrError', 'CtorArgs'])
                 beh.append({'at': key, 'do': 'raise', 'exc': exc})
-                j['exc'] = exc
+                j['exc'] = {'CtorArgs': 'CtorError'}.get(exc, exc)
             elif r < 0.4 and sm != 'threading':
                 j['expect'] = 'timeout'
                 j['timeout'] = 0.4
